@@ -18,9 +18,13 @@
 (*   Read    RLock; read; RUnlock            (getters, IsAny...)           *)
 (*   Remove  Lock; detach; Unlock; Close the detached nodes                *)
 (*   Reopen  RLock; snapshot; RUnlock; Reopen the nodes                    *)
-(* HoldClose / HoldReopen say which broker lock is held while the node     *)
-(* callback runs: "none" is the intended design; "W" / "R" re-create the   *)
-(* pinned tree (DESIGN.md F6, deadlocks D1-D3).                            *)
+(*   WriteFail / RemoveFail   Lock; precondition fails; Unlock; return     *)
+(* HoldClose / HoldReopen / HoldProcess say which broker lock is held      *)
+(* while the node callback runs: "none" is the intended design; "W" / "R"  *)
+(* re-create the pinned tree (DESIGN.md F6, deadlocks D1-D3) resp. a Send  *)
+(* that keeps the read lock while its nodes run.  CbWrites: callbacks that *)
+(* call a writing Broker method (a node registering something from         *)
+(* Process).  LeakOnFail: a failing precondition exit that forgets Unlock. *)
 (***************************************************************************)
 EXTENDS Naturals, Sequences, FiniteSets, TLC
 
@@ -28,7 +32,10 @@ CONSTANTS Procs, Progs,        \* Progs[p] = sequence of ops in {"Send","Write",
           CbSends,             \* callbacks that re-enter Send: subset of {"process","close","reopen"}
           GatedLock,           \* the re-entering node holds its own mutex across the callback (gated.Filter)
           HoldClose,           \* "none" | "W"
-          HoldReopen           \* "none" | "R"
+          HoldReopen,          \* "none" | "R"
+          HoldProcess,         \* "none" | "R"
+          CbWrites,            \* callbacks that re-enter a writing call: subset of {"process"}
+          LeakOnFail           \* BOOLEAN
 
 VARIABLES readers, writer, pendingW, gl, stack, pcnt
 vars == <<readers, writer, pendingW, gl, stack, pcnt>>
@@ -43,6 +50,7 @@ Pop(p) == stack' = [stack EXCEPT ![p] = SubSeq(@, 1, Len(@) - 1)]
 Set(p, pc) == stack' = [stack EXCEPT ![p] = Append(SubSeq(@, 1, Len(@) - 1), [Top(p) EXCEPT !.pc = pc])]
 (* replace the top frame's pc and push a nested Send *)
 Nest(p, pc) == stack' = [stack EXCEPT ![p] = Append(Append(SubSeq(@, 1, Len(@) - 1), [Top(p) EXCEPT !.pc = pc]), [op |-> "Send", pc |-> "start"])]
+NestOp(p, pc, op) == stack' = [stack EXCEPT ![p] = Append(Append(SubSeq(@, 1, Len(@) - 1), [Top(p) EXCEPT !.pc = pc]), [op |-> op, pc |-> "start"])]
 Depth(p) == Len(stack[p])
 
 Begin(p) == /\ stack[p] = <<>> /\ pcnt[p] <= Len(Progs[p])
@@ -57,20 +65,36 @@ WAcquire(p) == p \in pendingW /\ NoReaders /\ writer = "none" /\ writer' = p /\ 
 SendStep(p) ==
   /\ stack[p] # <<>> /\ Top(p).op = "Send"
   /\ \/ Top(p).pc = "start" /\ RLock(p) /\ Set(p, "locked") /\ UNCHANGED <<writer, pendingW, gl, pcnt>>
-     \/ Top(p).pc = "locked" /\ RUnlock(p) /\ Set(p, "process") /\ UNCHANGED <<writer, pendingW, gl, pcnt>>
-     \/ /\ Top(p).pc = "process" /\ UNCHANGED <<readers, writer, pendingW, pcnt>>
-        /\ IF "process" \in CbSends /\ Depth(p) < 2
-           THEN /\ (IF GatedLock THEN gl = "none" /\ gl' = p ELSE UNCHANGED gl)
-                /\ Nest(p, "inproc")
-           ELSE Pop(p) /\ UNCHANGED gl
+     \/ /\ Top(p).pc = "locked" /\ (IF HoldProcess = "R" THEN UNCHANGED readers ELSE RUnlock(p))
+        /\ Set(p, "process") /\ UNCHANGED <<writer, pendingW, gl, pcnt>>
+     \/ /\ Top(p).pc = "process" /\ UNCHANGED <<writer, pendingW, pcnt>>
+        /\ \/ /\ "process" \in CbSends /\ Depth(p) < 2
+              /\ (IF GatedLock THEN gl = "none" /\ gl' = p ELSE UNCHANGED gl)
+              /\ Nest(p, "inproc") /\ UNCHANGED readers
+           \/ /\ "process" \in CbWrites /\ Depth(p) < 2
+              /\ NestOp(p, "inwrite", "Write") /\ UNCHANGED <<readers, gl>>
+           \/ /\ ("process" \notin (CbSends \cup CbWrites) \/ Depth(p) >= 2)
+              /\ Pop(p) /\ UNCHANGED gl
+              /\ (IF HoldProcess = "R" THEN RUnlock(p) ELSE UNCHANGED readers)
      \/ /\ Top(p).pc = "inproc" /\ (IF GatedLock THEN gl' = "none" ELSE UNCHANGED gl)
-        /\ Pop(p) /\ UNCHANGED <<readers, writer, pendingW, pcnt>>
+        /\ Pop(p) /\ UNCHANGED <<writer, pendingW, pcnt>>
+        /\ (IF HoldProcess = "R" THEN RUnlock(p) ELSE UNCHANGED readers)
+     \/ /\ Top(p).pc = "inwrite" /\ Pop(p) /\ UNCHANGED <<writer, pendingW, gl, pcnt>>
+        /\ (IF HoldProcess = "R" THEN RUnlock(p) ELSE UNCHANGED readers)
 
 WriteStep(p) ==
   /\ stack[p] # <<>> /\ Top(p).op = "Write"
   /\ \/ Top(p).pc = "start" /\ WAnnounce(p) /\ Set(p, "wait") /\ UNCHANGED <<readers, writer, gl, pcnt>>
      \/ Top(p).pc = "wait" /\ WAcquire(p) /\ Set(p, "held") /\ UNCHANGED <<readers, gl, pcnt>>
      \/ Top(p).pc = "held" /\ writer' = "none" /\ Pop(p) /\ UNCHANGED <<readers, pendingW, gl, pcnt>>
+
+(* a writing / removing call whose precondition fails after the lock was taken *)
+FailStep(p) ==
+  /\ stack[p] # <<>> /\ Top(p).op \in {"WriteFail", "RemoveFail"}
+  /\ \/ Top(p).pc = "start" /\ WAnnounce(p) /\ Set(p, "wait") /\ UNCHANGED <<readers, writer, gl, pcnt>>
+     \/ Top(p).pc = "wait" /\ WAcquire(p) /\ Set(p, "held") /\ UNCHANGED <<readers, gl, pcnt>>
+     \/ /\ Top(p).pc = "held" /\ (IF LeakOnFail THEN UNCHANGED writer ELSE writer' = "none")
+        /\ Pop(p) /\ UNCHANGED <<readers, pendingW, gl, pcnt>>
 
 ReadStep(p) ==
   /\ stack[p] # <<>> /\ Top(p).op = "Read"
@@ -105,7 +129,7 @@ ReopenStep(p) ==
 
 AllDone == \A p \in Procs : stack[p] = <<>> /\ pcnt[p] > Len(Progs[p])
 Finished == AllDone /\ UNCHANGED vars
-Next == (\E p \in Procs : Begin(p) \/ SendStep(p) \/ WriteStep(p) \/ ReadStep(p) \/ RemoveStep(p) \/ ReopenStep(p)) \/ Finished
+Next == (\E p \in Procs : Begin(p) \/ SendStep(p) \/ WriteStep(p) \/ FailStep(p) \/ ReadStep(p) \/ RemoveStep(p) \/ ReopenStep(p)) \/ Finished
 Spec == Init /\ [][Next]_vars /\ WF_vars(Next)
 
 (* C12: with TLC's deadlock check on, a reachable state without successor is a Broker call that never returns *)
